@@ -38,7 +38,8 @@ func runC18(r *run) {
 	}
 	home, cwd0 := slog.VerifHomeCwd()
 	wd, _ := os.Getwd()
-	keysGood := []string{"/opt/secret-corp", "/root/proj", "/srv/x y", "/data", "/data/deep/er", home + "/work", "/srv/build/acme/", "/mnt/vol/"}
+	// (the last two are not absolute: the directory of a build made with -trimpath, a root-relative tree)
+	keysGood := []string{"/opt/secret-corp", "/root/proj", "/srv/x y", "/data", "/data/deep/er", home + "/work", "/srv/build/acme/", "/mnt/vol/", "github.com/acme/secret-customer", "build/out"}
 	replGood := []string{"~", ".", "$REPO", "S", "~w"}
 	base := slog.LstdFlags &^ (slog.Lprivacypath | slog.Lprivacypathregexp | slog.Lcaller)
 	ctx := context.Background()
@@ -172,7 +173,7 @@ func runC18(r *run) {
 		}
 		paths := []string{home + "/proj/a.go", home, cwd0 + "/x/y.go", wd + "/harness/c18.go", "/opt/secret-corp/monorepo/svc/vendor/lib/y.go",
 			"/root/proj/vendor/x.go", "/data/deep/er/f.go", "/data/f.go", "/srv/x y/z.go", "/Volumes/ext/src/a.go", "/Volumes", "/Volumes/",
-			"/Volumes/x", "/VolumesBackup/2024/src/a.go", "/usr/lib/go/src/runtime/proc.go", "relative/path.go", "", "/a/x", "/t/x", "/",
+			"/Volumes/x", "/VolumesBackup/2024/src/a.go", "/usr/lib/go/src/runtime/proc.go", "relative/path.go", "", "/a/x", "/t/x", "/", "github.com/acme/secret-customer/svc/main.go", "github.com/acme/other/x.go", "build/out/gen/a.go",
 			home + "/work/internal/a.go", "/tmp/node_modules/z.js", "/srv/build/acme/svc/main.go", "/mnt/vol/a.go", "/mnt/volume/a.go",
 			filepath.Dir(wd0) + "/c18-sibling/gen/a.go", wd0 + "/harness/c18.go", altDir + "/sub/b.go"}
 		for _, fl := range []slog.Flags{slog.Lprivacypath | slog.Lprivacypathregexp, slog.Lprivacypath, 0, slog.Lprivacypathregexp} {
